@@ -2446,7 +2446,13 @@ def _s_discard(ip, recv, args, kwargs, node, fr):
         if node.func.attr == 'remove':
             raise PyRaise(VExc('KeyError'), node)
         return VConst(None)
-    xt = recv.ek.unwrap(resolve(ip, args[0]))
+    try:
+        xt = recv.ek.unwrap(resolve(ip, args[0]))
+    except TypeError:
+        # an element of another Python type (touched.discard(None) on a set of bytes) is not a member
+        if node.func.attr == 'remove':
+            raise PyRaise(VExc('KeyError'), node)
+        return VConst(None)
     if node.func.attr == 'remove' and not ip.branch(z3.Select(recv.dom, xt)):
         raise PyRaise(VExc('KeyError'), node)
     ip.touch(recv)
